@@ -171,7 +171,7 @@ func TestVerifC05(t *testing.T) {
 	}
 	for _, n := range c05Names[:2] {
 		for _, o := range []string{"", "10.1.3.0/24", "0.0.0.0/0", "10.2.3.0/24"} {
-			for _, c := range c05Clients[:4] {
+			for _, c := range append(append([]string{}, c05Clients[:4]...), "10.3.0.5") {
 				small = append(small, ecsQuery{Client: c, Name: n, QType: dns.TypeA, QClass: dns.ClassINET, ECS: o})
 			}
 		}
